@@ -37,6 +37,9 @@ impl Property for C07 {
     fn tape_len(&self, _t: Tier) -> usize {
         700
     }
+    fn fuzz_runs(&self, _tier: Tier) -> u64 {
+        40_000
+    }
     fn random_cases(&self, tier: Tier) -> u64 {
         tier.pick(15_000, 200_000)
     }
